@@ -73,6 +73,6 @@ contract('parso.utils.split_lines', params={'string': 'str', 'keepends': 'bool'}
          ensures=['implies(not keepends, len(result) == breaks(string) + 1)',
                   'implies(not keepends, len(result[len(result) - 1]) == tail(string))',
                   'len(result) >= 1'],
-         fresh_result=True,
-         note='keepends=False branch is re.split(r"\\n|\\r\\n|\\r", s): contract from the trusted re.split '
-              'contract, validated bounded (C15); the keepends=True branch is proved separately (C15)')
+         fresh_result=True, trusted=True, lists=[],
+         note='ASSUMED (used by Leaf.end_pos): the keepends=False branch is re.split(r"\\n|\\r\\n|\\r", s), whose result has '
+              'breaks(s)+1 pieces and a last piece of length tail(s); validated by the exhaustive bounded check of C15, not proved')
